@@ -73,3 +73,23 @@ Print Assumptions exit_skipped_refuted.
 Example quiescent_premise_met :
   closed (fold_left step [Enter; Update; Fire 1; Update; Run; Exit; Run] init) = true.
 Proof. reflexivity. Qed.
+
+(* (3) the paths of a call: statements after enter() go on, return early (nothing left to do) or raise.  With the
+   try block (or with-statement) starting right after enter(), any sequence of calls taking any paths leaves as many
+   exits as enters, and every call's log ends with its exit; a statement that can leave the function between
+   enter() and the try block skips it *)
+Theorem every_path_exits :
+  forall calls : list (list outcome),
+    pev_count PEnter (calls_log 0 calls) = length calls /\ pev_count PExit (calls_log 0 calls) = length calls.
+Proof. exact calls_balanced_lemma. Qed.
+Print Assumptions every_path_exits.
+
+Theorem call_ends_with_exit :
+  forall stmts, exists l, call_log 0 stmts = l ++ [PExit].
+Proof. exact call_ends_with_exit_lemma. Qed.
+Print Assumptions call_ends_with_exit.
+
+Theorem early_return_before_try_refuted :
+  exists stmts, pev_count PExit (call_log 1 stmts) = 0.
+Proof. exists [Ret]. reflexivity. Qed.
+Print Assumptions early_return_before_try_refuted.
